@@ -19,7 +19,7 @@ pub fn run_inject(p: &InjectParams, out: &mut RunOut) {
     let mut injected = 0u64;
     while injected < p.budget_cases {
         // ---- a small configuration
-        let hk = if rng.chance(1, 8) { 4 } else { rng.below(4) as u8 };
+        let hk = if rng.chance(1, 8) { 4 } else { TH_KINDS[rng.usize_below(TH_KINDS.len())] };
         let universe = rng.range(3, 8) as u32;
         let typical = base + 40;
         let max = match rng.below(8) { 0 => usize::MAX, 1 => base * 2, _ => typical * rng.range(2, 7) + rng.usize_below(typical) };
